@@ -27,6 +27,8 @@ package mcp
 //@ type lifecycleManager
 //@   ctor newLifecycleManager, withProtocolVersion, withSupportedVersions
 //@   final[C16] supportedVersions, defaultProtocolVersion
+//@   final[C06,C20] sessionStates
+//@   invariant self.sessionStates != nil
 //@   invariant[C16 default-version-is-supported] inslice(self.supportedVersions, self.defaultProtocolVersion)
 //@
 //@ func lifecycleManager.withProtocolVersion
@@ -43,14 +45,20 @@ package mcp
 //@   loop 1 invariant[C16] 0 - 1 <= rangeindex && rangeindex < len(m.supportedVersions)
 //@
 //@ type promptManager
+//@   ctor newPromptManager
 //@   guarded[C12,C20] prompts, promptsOrder by mu
+//@   final[C06,C12,C20] prompts
+//@   invariant self.prompts != nil
 //@ func promptManager.getPrompts
 //@   pure
 //@   loop 1 invariant[C16,C12] len(prompts) == yielded(1)
 //@   ensures[C16,C12 one-entry-per-registered-prompt] len(result) == len(m.prompts)
 //@
 //@ type resourceManager
+//@   ctor newResourceManager
 //@   guarded[C12,C20] resources, resourcesOrder, templates by mu
+//@   final[C06,C12,C20] resources, templates, subscribers
+//@   invariant self.resources != nil && self.templates != nil && self.subscribers != nil
 //@   invariant[C16,C12 every-ordered-uri-is-registered] forall i int :: 0 <= i && i < len(self.resourcesOrder) ==> self.resourcesOrder[i] in self.resources
 //@ func resourceManager.getResources
 //@   pure
@@ -150,7 +158,7 @@ package mcp
 //@ type StdioClient
 //@   private[C16] initialized, state writers Initialize, Close, setState
 //@   invariant[C16 initialized-iff-state-initialized] self.initialized <==> stdioStateIs(self, StateInitialized)
-//@   invariant[C16 state-cell-holds-a-state] isnil(self.state) || istype(self.state, State)
+//@   invariant isnil(self.state) || istype(self.state, State)
 //@
 //@ func stdioClientTransport.sendRequest
 //@   trusted
@@ -193,3 +201,103 @@ package mcp
 //@   ensures[C16 no-operation-before-handshake] !old(c.initialized) ==> ret1 != nil && ret == nil && netops == old(netops)
 //@ func StdioClient.SendRootsListChangedNotification
 //@   ensures[C16 no-operation-before-handshake] !old(c.initialized) ==> ret != nil && netops == old(netops)
+
+// ---------------------------------------------------------------------------
+// handler.go — C15 (middleware onion), C03/C14 (dispatch)
+
+//@ ghost chaincalls int
+//@ ghost dispatches int
+//@
+//@ callspec Middleware
+//@   function
+//@ callspec HandlerFunc
+//@   counted chaincalls
+//@   modifies *
+//@
+//@ fun chain(ms []Middleware, core HandlerFunc, k int) HandlerFunc = k >= len(ms) ? core : Middleware(ms[k], chain(ms, core, k + 1))
+//@
+//@ func mcpHandler.applyMiddlewares
+//@   pure
+//@   loop 1 invariant[C15] 0 - 1 <= i && i < len(h.middlewares) && handler == chain(h.middlewares, old(handler), i + 1)
+//@   ensures[C15 index-0-outermost-each-middleware-once] result == chain(h.middlewares, handler, 0)
+//@
+//@ func mcpHandler.use
+//@   modifies h.middlewares
+//@   ensures[C15 appended-in-call-order] len(h.middlewares) == len(old(h.middlewares)) + 1 && h.middlewares[len(old(h.middlewares))] == middleware
+//@   ensures[C15 earlier-middlewares-kept] forall j int :: 0 <= j && j < len(old(h.middlewares)) ==> h.middlewares[j] == old(h.middlewares[j])
+//@
+//@ func mcpHandler.dispatchRequest
+//@   counted dispatches
+//@   modifies *
+//@
+//@ func mcpHandler.handleRequest$1
+//@   ensures[C15 core-dispatches-exactly-once] dispatches == old(dispatches) + 1
+//@
+//@ func mcpHandler.handleRequest
+//@   before call wrappedHandler#1 assert[C15 whole-chain-around-the-core] wrappedHandler == chain(h.middlewares, coreHandler, 0)
+//@   ensures[C15 chain-invoked-exactly-once] len(old(h.middlewares)) > 0 ==> chaincalls == old(chaincalls) + 1
+//@   ensures[C15 direct-dispatch-without-middlewares] len(old(h.middlewares)) == 0 ==> dispatches == old(dispatches) + 1
+
+// ---------------------------------------------------------------------------
+// C06 / C07 — zero-annotation safety sweeps.  Every function declared in the
+// listed files is translated; each single-result type assertion, close of a
+// channel, send on a channel, write to a map entry and explicit panic in them
+// is an obligation (the values that come out of encoding/json are
+// unconstrained dynamic types, so "any JSON type in any field" is decided for
+// the whole type lattice at once).
+
+//@ sweepscope[C06] kinds=typeassert,close,nilmap files=streamable_server.go,sse_server.go,stdio_server.go,handler.go,manager_tools.go,manager_prompt.go,manager_resource.go,manager_lifecycle.go,jsonrpc.go,mcp_types.go,responder_json.go,responder_sse.go,responder.go,session.go,server.go,notifier.go,mcp_notification.go,internal/session/session.go
+//@ sweepscope[C07] kinds=typeassert,close,nilmap files=streamable_client.go,sse_client.go,transport_stdio.go,client.go,stdio_client.go,utils_json.go,mcp_tools.go,mcp_prompts.go,mcp_resources.go,transport_http.go except=.With,.New
+
+// Maps that are created by the constructor and never reassigned: final fields,
+// non-nil by type invariant (assumed for objects built by their constructors;
+// proved for the constructors that take no option callbacks).
+//@ type Server
+//@   final[C06,C12,C20] notificationHandlers
+//@   invariant self.notificationHandlers != nil
+//@ type SSEServer
+//@   final[C06,C12,C20] notificationHandlers
+//@   invariant self.notificationHandlers != nil
+//@ type toolManager
+//@   ctor newToolManager
+//@   final[C06,C12,C20] tools
+//@   invariant self.tools != nil
+//@ type responseManager
+//@   ctor newResponseManager
+//@   final[C06,C05,C20] pendingRequests
+//@   invariant self.pendingRequests != nil
+//@ type httpServerHandler
+//@   final[C06,C11,C20] getSSEConnections
+//@   invariant self.getSSEConnections != nil
+
+// Server-issued requests are built by the library itself with int64 ids (ListRoots); a caller of the
+// exported SendRequest must do the same.
+//@ func SSEServer.SendRequest
+//@   requires[C06] istype(request.ID, int64)
+//@ func StdioServer.SendRequest
+//@   requires[C06] istype(request.ID, int64)
+//@ func resourceManager.unsubscribe
+//@   requires[C06] !closed(ch)
+
+// ---------------------------------------------------------------------------
+// client transports — C07 (maps created by the constructors, channel latches)
+
+//@ type sseClientTransport
+//@   private[C07] endpointReceived, endpointChan writers handleEndpointEvent
+//@   owns endpointChan
+//@   private[C07] responses writers close
+//@   invariant self.responses != nil
+//@   invariant[C07 endpoint-latch-closed-only-after-the-flag-is-set] self.endpointChan != nil && (!self.endpointReceived ==> !closed(self.endpointChan))
+//@ type stdioClientTransport
+//@   final[C07,C20] pendingRequests, notificationHandlers
+//@   invariant self.pendingRequests != nil && self.notificationHandlers != nil
+//@ type streamableHTTPClientTransport
+//@   invariant self.notificationHandlers != nil
+//@ type StdioClient
+//@   final[C07] capabilities
+//@   invariant self.capabilities != nil
+//@
+//@ func stdioClientTransport.close$1
+//@   requires[C07] done != nil && !closed(done)
+//@ func sseClientTransport.close
+//@   nosweep close
